@@ -520,10 +520,17 @@ func ufAxioms(u *Term) []*Term {
 			return []*Term{mkOr(none, found)}
 		}
 		return []*Term{mkOr(mkEq(u, mkInt(-1)), mkAnd(mkLe(mkInt(0), u), mkLe(mkAdd(u, n), mkLen(s)), mkEq(mkSubstr(s, u, n), sep)))}
+	case "galias":
+		return []*Term{mkInRe(u, reLowerIdent)}
 	case "utf8size":
 		return []*Term{mkLe(mkInt(1), u), mkLe(u, mkInt(4)), mkLe(u, mkLen(u.Args[0]))}
 	case "utf8rune":
 		return []*Term{mkLe(mkInt(128), u), mkLe(u, mkInt(0x10ffff))}
+	}
+	if strings.HasPrefix(u.Name, "bigmap") {
+		if info := bigMapInfoFor(u.Name); info != nil {
+			return []*Term{mkInRe(u, info.values)}
+		}
 	}
 	if strings.HasPrefix(u.Name, "rxrepl_") {
 		info := rxInfo(u.Name)
@@ -615,7 +622,13 @@ func (p *Path) decodeRune(s *Term) Value {
 		return Tuple{mkInt(int64(utf8.RuneError)), mkInt(0)}
 	}
 	if p.branch(mkInRe(s, reAscii), "decoderune-ascii") {
-		return Tuple{mkApp("str.to_code", SInt, mkSubstr(s, mkInt(0), mkInt(1))), mkInt(1)}
+		// s = c ++ rest with |c| = 1 (word equation; s[1:] is then rewritten to rest without a query)
+		c := p.freshVar("c", SStr)
+		rest := p.freshVar("rest", SStr)
+		p.assume(mkEq(s, mkConcat(c, rest)))
+		p.assume(mkInRe(c, reRange(0, 0x7f)))
+		p.decomp[s] = append(p.decomp[s], decompEntry{a: c, b: rest, alen: 1})
+		return Tuple{mkApp("str.to_code", SInt, c), mkInt(1)}
 	}
 	return Tuple{mkUF("utf8rune", SInt, s), mkUF("utf8size", SInt, s)}
 }
@@ -623,6 +636,10 @@ func (p *Path) decodeRune(s *Term) Value {
 func (p *Path) isDigit(r *Term) *Term {
 	if r.IsConst() {
 		return mkBool(unicode.IsDigit(rune(r.Int64())))
+	}
+	if r.Op == "str.to_code" && p.pcSet[mkInRe(r.Args[0], reRange(0, 0x7f)).id] {
+		// the code of a one-byte ASCII string: a digit iff that byte is 0-9
+		return mkInRe(r.Args[0], reRange('0', '9'))
 	}
 	if p.branch(mkLt(r, mkInt(128)), "isdigit-ascii") {
 		return mkAnd(mkLe(mkInt('0'), r), mkLe(r, mkInt('9')))
@@ -777,6 +794,15 @@ func nativeUF(name string) func(args []string) (string, bool) {
 			_, n := utf8.DecodeRuneInString(s)
 			return strconv.Itoa(n), ok
 		}
+	case "galias":
+		return func(a []string) (string, bool) {
+			s, ok := modelStr(a[0])
+			if !ok {
+				return "", false
+			}
+			r, ok := concreteCallString("guessAlias", s)
+			return "s:" + r, ok
+		}
 	case "isdigit":
 		return func(a []string) (string, bool) {
 			i, ok := modelInt(a[0])
@@ -784,6 +810,16 @@ func nativeUF(name string) func(args []string) (string, bool) {
 				return "", false
 			}
 			return strconv.FormatBool(unicode.IsDigit(rune(i.Int64()))), true
+		}
+	}
+	if strings.HasPrefix(name, "bigmap") {
+		info := bigMapInfoFor(name)
+		if info == nil {
+			return nil
+		}
+		return func(a []string) (string, bool) {
+			s, ok := modelStr(a[0])
+			return "s:" + info.table[s], ok
 		}
 	}
 	if strings.HasPrefix(name, "rxrepl_") {
